@@ -3,6 +3,7 @@ import PhysisModel.Spec.Archive
 import PhysisModel.Spec.SqPackData
 import PhysisModel.Model.GameData
 import PhysisModel.Model.Dat
+import PhysisModel.Base.Mutate
 /-!
 Driver for C01.  Case grammar (one line, fields separated by single spaces):
 
@@ -186,7 +187,7 @@ def modelAnswers (pl : Platform) (dirs : List Bytes) (files : Files) (qs : List 
     else (GameData.answers disk g qs).map (showAnswer disk)
 
 /-- `idx`: one index file, `SqPackIndex::from_existing` + `find_entry` per path -/
-def handleIdx (spec qs : String) : Option String := do
+def handleIdx (spec qs : String) (dmg : Option (UInt64 × Nat) := none) : Option String := do
   let f ← (match spec.splitOn "," with
     | "F" :: pl :: hk :: dl :: fl :: ents => do
       let pl ← platOf (← pl.toNat?)
@@ -201,6 +202,17 @@ def handleIdx (spec qs : String) : Option String := do
   let showE (d : UInt8) (o : UInt64) : String := "d" ++ toString d.toNat ++ "o" ++ toString o.toNat
   -- paths without a folder separator are outside the property (and panic under `index`)
   if paths.any (fun p => (hashOf f.kind (Str.lower p)).isNone) then none else
+  if let some (seed, k) := dmg then
+    -- `mut <seed> <k> idx …`: the encoded index file with `k` damaged bytes (Base/Mutate.lean, most of
+    -- them in the two headers); the model of the code against the code
+    let file := Mutate.mutate file seed k (bias := 2048)
+    let model := match Index.parse file with
+      | none => paths.map (fun _ => "noindex")
+      | some ix => paths.map (fun p =>
+        match Index.findEntry ix p with
+        | some (some e) => showE e.dataFileId e.offset
+        | _ => "none")
+    return answer (Bytes.toHex file ++ " " ++ qs) (",".intercalate model) ["corr", "mut"]
   let expected := paths.map (fun p =>
     match findIn f (Str.lower p) with
     | some e => showE e.datId e.offset
@@ -223,6 +235,13 @@ def handle (line : String) : String :=
     match handleIdx spec qs with
     | some r => r
     | none => bad
+  | ["mut", seed, k, "idx", spec, qs] =>
+    match seed.toNat?, k.toNat? with
+    | some sd, some k =>
+      match handleIdx spec qs (some (sd.toUInt64, k)) with
+      | some r => r
+      | none => bad
+    | _, _ => bad
   | ["arch", pl, dirs, slots, dats, qs, mode] =>
     match (do
       let pl ← platOf (← pl.toNat?)
